@@ -10,11 +10,16 @@ FSCFG = [
     dict(name='ext4-1k-nocsum-32bit', fstype='ext4', bs=1024, blocks=8193, features=['^metadata_csum', '^64bit'], extra=['-J', 'size=1']),
     dict(name='ext4-2k', fstype='ext4', bs=2048, blocks=6144, features=[], extra=['-J', 'size=2', '-g', '2048']),
     dict(name='ext4-4k-single-group', fstype='ext4', bs=4096, blocks=4096, features=[], extra=['-J', 'size=4']),
+    # external journal devices (mke2fs -O journal_dev, attached with -J device=): only e2fsck -j can replay them (debugfs jr has no way to name the device)
+    dict(name='ext4-1k-extjournal', fstype='ext4', bs=1024, blocks=8193, features=[], extra=[], extjournal=2048),
+    dict(name='ext4-4k-extjournal', fstype='ext4', bs=4096, blocks=4096, features=[], extra=[], extjournal=1024),
+    dict(name='ext3-1k-extjournal', fstype='ext3', bs=1024, blocks=8193, features=[], extra=[], extjournal=1500),
 ]
+JUUID = '5a5a0000-1111-2222-3333-444455556666'
 FRONTENDS = ['e2fsck -fy', 'e2fsck -fy -E journal_only', 'debugfs jr']
 RULE = ('Hypothesis draws a journal: block size 1k/2k/4k, tag format 32/64-bit, checksums none/v1(crc32_be)/v2/v3, async_commit, SAME_UUID or per-tag UUID layouts, starting sequence incl. values next to 2^32, start position anywhere incl. 1-14 blocks before the wrap point, '
         '1-8 transactions of 1-40 tags over a pool of 200 target blocks (data blocks of a pre-created file and free blocks), several descriptor blocks per transaction, escaped blocks, revoke blocks before/after the descriptors, repeated logging of one block, '
-        'and a damage suffix out of %s applied to a drawn transaction. An independent writer lays it into the journal inode; the reference model (scan up to the first transaction that is uncommitted / wrongly sequenced / checksum-invalid; a block keeps the image of the last accepted '
+        'and a damage suffix out of %s applied to a drawn transaction. An independent writer lays it into the journal inode or, for the three external-journal configurations, into the journal device; the reference model (scan up to the first transaction that is uncommitted / wrongly sequenced / checksum-invalid; a block keeps the image of the last accepted '
         'transaction that logged it unless revoked by that or a later one) predicts every pool block. Checked on the results of `e2fsck -fy`, `e2fsck -fy -E journal_only` and `debugfs -w -R jr`: pool blocks equal the model, all other pool blocks untouched, journal superblock s_start == 0, '
         'needs_recovery clear, and all front-ends byte-identical on the pool. For checksum damage inside a transaction (descriptor/data/revoke block) jbd2 reports an error; there the oracle is: no pool block may hold anything but its original or a logged image, and never the damaged image. '
         'non-trivial = at least one accepted transaction and one of {revoke hit, escape, wrap crossed, repeated block, damage}; distinct by journal structure') % sorted(set(jbd2.DAMAGE))
@@ -34,19 +39,29 @@ def envinit(widx):
 def base_image(env, idx):
     """fresh fs with a 160-block file whose data blocks + 40 free blocks form the pool; cached per configuration"""
     if idx in env['base']: return env['base'][idx]
-    cfg = FSCFG[idx]; img = os.path.join(env['dir'], 'c03base-%d.img' % idx); tp = env['plain']
+    cfg = FSCFG[idx]; img = os.path.join(env['dir'], 'c03base-%d.img' % idx); tp = env['plain']; jdev = None
+    if cfg.get('extjournal'):
+        jdev = os.path.join(env['dir'], 'c03base-%d.jnl' % idx)
+        with open(jdev, 'wb') as f: f.truncate(cfg['extjournal'] * cfg['bs'])
+        pj = vrun.run([tp.mke2fs, '-q', '-F', '-O', 'journal_dev', '-b', str(cfg['bs']), '-U', JUUID, jdev, str(cfg['extjournal'])], merge=True)
+        if pj.rc != 0: env['base'][idx] = None; return None
+        cfg = dict(cfg, features=cfg['features'] + ['^has_journal'])
     p = fsgen.mk_config(tp, img, cfg)
+    if jdev and p.rc == 0:
+        # mke2fs/tune2fs insist on a block device for -J device=; attach the journal the way the suite's j_ext_* tests do
+        tp.dbg(img, ['feature has_journal', 'ssv journal_dev 0x9999', 'ssv journal_uuid ' + JUUID], write=True)
     res = None
     if p.rc == 0:
         blob = os.path.join(env['blobs'], 'pool-%d' % cfg['bs'])
         with open(blob, 'wb') as f: f.write(bytes(range(256)) * (cfg['bs'] * 160 // 256))
         tp.dbg(img, ['write %s poolfile' % blob, 'mkdir d', 'write %s d/other' % blob], write=True)
-        if tp.fsck(img, '-fn').rc == 0:
+        if (tp.fsck(img, '-fn') if not jdev else vrun.run([tp.e2fsck, '-fn', '-j', jdev, img], merge=True)).rc == 0:
             R = e4ref.Reader(img); dg = R.digest(content=False); I = R.fs.read_inode(dg[b'/poolfile']['ino'])
             data = [pb + k for lb, pb, ln, un in R.blockmap(I) for k in range(ln)]
             ck = e4ref.Checker(img); ck.run()
             free = [b for b in range(R.fs.blocks - 1, R.fs.first_data, -1) if b not in ck.fixed and b not in ck.owners][:40]
             if len(data) >= 160 and len(free) == 40: res = (img, data[:160] + free)
+            env.setdefault('base_j', {})[idx] = jdev
     env['base'][idx] = res
     return res
 
@@ -56,7 +71,9 @@ def body(case, env):
     if b is None: return (None, fp, False, None, classes + ['skip:base'])
     base, pool = b; bs = cfg['bs']; d = env['dir']; t = env['asan']
     img = os.path.join(d, 'c03.img'); shutil.copyfile(base, img)
-    try: expected, touched, candidates, poisoned, info = jbd2.write_journal(img, case, pool)
+    jbase = env.get('base_j', {}).get(case['fs']); jimg = None
+    if jbase: jimg = os.path.join(d, 'c03.jnl'); shutil.copyfile(jbase, jimg); classes.append('external-journal')
+    try: expected, touched, candidates, poisoned, info = jbd2.write_journal(img, case, pool, ext=jimg)
     except ValueError as e: return (None, fp, False, None, classes + ['skip:writer:' + str(e)[:30]])
     classes.append('damage:' + info['damage'])
     if info['wrapped']: classes.append('wrap-crossed')
@@ -65,9 +82,11 @@ def body(case, env):
     results = {}
     obs_base = dict(fs=cfg['name'], fmt64=case['fmt64'], csum=case['csum'], async_commit=case['async'], damage=info['damage'], damage_at=info['damage_at'], damaged_seq=(info['log'][info['damage_at']]['seq'] if info['damage'] != 'none' and info['damage_at'] < len(info['log']) else None), accepted=info['accepted'], log=info['log'], start=info['start'], first=info['first'], maxlen=info['maxlen'], seq0=case['seq0'])
     for fe in FRONTENDS:
-        w = os.path.join(d, 'c03w.img'); shutil.copyfile(img, w)
+        if jimg and fe == 'debugfs jr': continue
+        w = os.path.join(d, 'c03w.img'); shutil.copyfile(img, w); wj = None
+        if jimg: wj = os.path.join(d, 'c03w.jnl'); shutil.copyfile(jimg, wj)
         if fe == 'debugfs jr': r = vrun.run([t.debugfs, '-w', '-R', 'jr', w], merge=True, cpu=120)
-        else: r = vrun.run([t.e2fsck] + fe.split()[1:] + [w], merge=True, cpu=120)
+        else: r = vrun.run([t.e2fsck] + fe.split()[1:] + (['-j', wj] if wj else []) + [w], merge=True, cpu=120)
         if r.rc is None or r.rc >= 90: return (dict(obs_base, kind='crash-or-sanitizer', frontend=fe, rc=r.rc, sig=r.sig, out=r.out[-500:]), fp, True, None, classes)
         with open(w, 'rb') as f: after = f.read()
         bad = []
@@ -86,8 +105,11 @@ def body(case, env):
         # journal empty / no recovery requested any more (only where recovery is reported as done)
         sb = tool.sb_fields(w)
         fs_, jmap = jbd2.journal_map(w) if sb['journal_inum'] else (None, None)
-        if jmap:
-            jsb = blk(after, jmap[0]); s_start = struct.unpack_from('>I', jsb, 0x1c)[0]
+        if jmap or wj:
+            if wj:
+                with open(wj, 'rb') as f: f.seek(jbd2.ext_journal_sb_block(bs) * bs); jsb = f.read(bs)
+            else: jsb = blk(after, jmap[0])
+            s_start = struct.unpack_from('>I', jsb, 0x1c)[0]
             if not info['weak'] and info['damage'] in ('none', 'stale-tail', 'missing-commit', 'commit-wrong-seq', 'zeroed-desc'):
                 if s_start != 0: return (dict(obs_base, kind='journal-not-empty-after-replay', frontend=fe, s_start=s_start, rc=r.rc, out=r.out[-300:]), fp, True, None, classes)
                 if sb['incompat'] & 4: return (dict(obs_base, kind='needs_recovery-still-set', frontend=fe, rc=r.rc, out=r.out[-300:]), fp, True, None, classes)
@@ -95,7 +117,7 @@ def body(case, env):
         classes.append('rc:%s:%s' % (fe.split()[0], r.rc))
     if not info['weak']:
         ref = results[FRONTENDS[0]]
-        for fe in FRONTENDS[1:]:
+        for fe in [x for x in FRONTENDS[1:] if x in results]:
             df = [n for n in pool if results[fe][n] != ref[n]]
             if df: return (dict(obs_base, kind='front-ends-disagree', frontends=(FRONTENDS[0], fe), blocks=df[:6]), fp, True, None, classes)
     nontrivial = info['accepted'] >= 1 and (info['revoke_hits'] > 0 or info['escapes'] > 0 or info['wrapped'] or info['repeats'] > 0 or info['damage'] != 'none')
@@ -108,7 +130,7 @@ def run(ctx):
     ctx.rule = RULE
     ctx.assumptions = ['pool blocks are data blocks of a regular file and free blocks: nothing e2fsck does after the replay rewrites them',
                        'for checksum damage inside a transaction (descriptor, data or revoke block; jbd2 aborts or skips, exactly like the kernel code it is copied from) only the weak oracle is applied: original-or-logged content, never the damaged image',
-                       'external journals and fast-commit areas are not generated (internal journal only)']
+                       'external journal devices are image files attached with -J device= and replayed with e2fsck -j (debugfs jr cannot name one); fast-commit areas are not generated']
     tool.replay_tier(ctx, body, envinit)
     n = int((120 if ctx.tier == 'quick' else 4000) * ctx.scale)
     hyp.run_property(ctx, strategy, body, envinit, n)
